@@ -22,8 +22,8 @@ Inductive res (A : Type) : Type := Ok (a : A) | Err (e : string).
 Arguments Ok {A} a.
 Arguments Err {A} e.
 
-Definition parts := list (list val).
-Definition rdd := list (Z * list val).
+Notation parts := (list (list val)) (only parsing).
+Notation rdd := (list (Z * list val)) (only parsing).
 
 (* enumerate(l, start=i) *)
 Fixpoint enum_from {A : Type} (i : Z) (l : list A) : list (Z * A) :=
